@@ -8,6 +8,8 @@ func init() {
 			shards: [2]int{1, 1}, timeout: [2]time.Duration{3 * min, 5 * min}},
 		{name: "dense", pkg: "./c07", run: "^TestDenseCatalogue$",
 			shards: [2]int{6, 16}, checks: [2]int{150, 8000}, timeout: [2]time.Duration{5 * min, 40 * min}},
+		{name: "controlflow", pkg: "./c07", run: "^TestControlFlow$",
+			shards: [2]int{4, 16}, checks: [2]int{400, 20000}, timeout: [2]time.Duration{5 * min, 40 * min}},
 		{name: "mutants", pkg: "./c07", run: "^TestMutateExamples$",
 			shards: [2]int{9, 16}, checks: [2]int{120, 6000}, timeout: [2]time.Duration{5 * min, 40 * min}},
 	}})
